@@ -30,3 +30,4 @@ def check(ctx):
     canon.scaling(ctx)
     ctx.floor("PURE", 30)
     ctx.floor("TABLES-mpo", 17)
+    canon.gauge_moves(ctx)
